@@ -13,3 +13,5 @@ import PyYetiVerif.Props.C13
 #print axioms PyYetiVerif.C13.dmig_structure
 #print axioms PyYetiVerif.C13.dmig_form6_iff
 #print axioms PyYetiVerif.C13.dmig_roundtrip
+#print axioms PyYetiVerif.C13.dmig_ncol_form9
+#print axioms PyYetiVerif.C13.dmig_header_ncol
